@@ -314,7 +314,8 @@ class NDNApp:
         self._prefix_register_semaphore = aio.Semaphore(1)
 
         async def starting_task():
-            for name, route, validator, need_raw_packet, need_sig_ptrs in self._autoreg_routes:
+            # (a copy: a route declared while these registrations are on their way registers itself)
+            for name, route, validator, need_raw_packet, need_sig_ptrs in list(self._autoreg_routes):
                 if not self.face.running:
                     # The connection is gone (and the tables are cleared): attaching the remaining routes now
                     # would leave their callbacks behind and make the next start-up fail as duplicates
